@@ -79,6 +79,10 @@ func c08Alphabet(cfg c08Cfg) ([]c08Frag, []string) {
 	}
 	ops = append(ops, c08Frag{0, -1, 0})
 	names = append(names, "advance(31s)")
+	// half a timeout and a bit: two of them outlast the timeout although no gap between
+	// consecutive fragments does (the timeout runs from the first fragment, not the latest)
+	ops = append(ops, c08Frag{0, -2, 0})
+	names = append(names, "advance(16s)")
 	return ops, names
 }
 
@@ -122,6 +126,10 @@ func c08VV(p []byte, split int) buffer.VectorisedView { return c08DefaultLink.vv
 
 func (s *c08Seq) Apply(i int) *engine.Violation {
 	o := s.ops[i]
+	if o.a == -2 {
+		vtime.Advance(16 * time.Second)
+		return nil
+	}
 	if o.a < 0 {
 		vtime.Advance(31 * time.Second)
 		return nil
